@@ -8,10 +8,11 @@ VARIABLE hist
 Ev(a, p, x, y) == [a |-> a, p |-> p, x |-> x, y |-> y]
 Rec(e) == hist' = Append(hist, e)
 
-GInit == Init /\ hist = <<Ev("Cfg", opener, 0, 0)>>
+GInit == Init /\ hist = <<Ev("Cfg", opener, PoorShare, 0)>>
 GStep ==
   /\ bad = "none"
-  /\ \/ \E p \in Party, a \in Amts, d \in {0, 1} : Add(p, a) /\ Rec(Ev("Add", p, a, d))
+  \* (with an uneven funding split the poor non-opener is below its reserve and never offers)
+  /\ \/ \E p \in Party, a \in Amts, d \in {0, 1} : (PoorShare = 0 \/ p = opener) /\ Add(p, a) /\ Rec(Ev("Add", p, a, d))
      \* y: 1 = update_fulfill_htlc, 0 = update_fail_htlc, 2 = update_fail_malformed_htlc (a fail for the model)
      \/ \E p \in Party, y \in {0, 1, 2}, id \in 0..(2*MaxAdds) :
             Resolve(p, IF y = 1 THEN "settle" ELSE "fail", id) /\ Rec(Ev("Resolve", p, id, y))
